@@ -23,7 +23,11 @@ RULE = ("generated child sets (0..50 children, names from several scripts incl. 
         "nested JSON metadata) packed for a mutable and for an immutable directory, unpacked through write handle, read "
         "handle and immutable directory; plus structured malformed data (truncation, junk, duplicate / non-normalized / "
         "unsorted names, trailing spaces, stray rwcapdata) and direct create_from_cap calls; a case = one pack, unpack "
-        "or create call; the listing (AuxValueDict with cached raw entries) of the unpacked directory is also packed for "
+        "or create call; half of the children come from the full grid rw slot {none, known write cap of each kind, "
+        "unknown-format} x ro slot {none, matching, known read-only cap of each kind, unknown-format, ro.-/imm.-prefixed}: "
+        "a directory is written from those cap strings, read through _unpack_contents/create_from_cap (first generation), "
+        "every child set again and re-packed, and the stored rwcap / ro fields decrypted and read again (second "
+        "generation), both slots compared with what was given; the listing (AuxValueDict with cached raw entries) of the unpacked directory is also packed for "
         "ANOTHER directory with a different write key (pack_children, create_dirnode(initial_children=), "
         "create_subdirectory(initial_children=)) and read back through that directory's write handle; "
         "non-trivial = at least one child / a non-empty cap")
@@ -154,6 +158,54 @@ def gen_cap_pair(rng, caps):
     if r > 0.97:
         w, rd = rng.choice([(None, None), (b"", None), (b"", b""), (None, b"")])
     return w, rd
+
+
+KNOWN_WRITE = ["ssk", "mdmf", "dir", "dir-mdmf"]
+KNOWN_RO = ["chk", "lit", "ssk-ro", "mdmf-ro", "dir-ro", "dir-mdmf-ro", "dir-chk", "dir-lit"]
+RW_KINDS = ["none"] + ["known-write:" + k for k in KNOWN_WRITE] + ["unknown"]
+RO_KINDS = ["none", "matching"] + ["known-ro:" + k for k in KNOWN_RO] + ["unknown", "ro.unknown", "imm.unknown"]
+
+
+def gen_grid_pair(rng, caps):
+    """every combination of rw slot {none, known write cap of each kind, unknown-format cap} and ro slot {none, the
+    matching read cap, known read-only cap of each kind, unknown-format cap, ro.-prefixed, imm.-prefixed} -> (w, r, kinds)"""
+    rwk = rng.choice(RW_KINDS)
+    rok = rng.choice(RO_KINDS)
+    if rok == "matching" and not rwk.startswith("known-write"):
+        rok = rng.choice(["known-ro:" + k for k in KNOWN_RO])
+    if rwk == "unknown" and rng.random() < 0.6:
+        rok = rng.choice(["known-ro:" + k for k in KNOWN_RO])          # the future write cap next to a readable read cap
+    fut = caps["future"]
+    w = None if rwk == "none" else (fut if rwk == "unknown" else caps[rwk.split(":")[1]])
+    if rok == "none":
+        r = None
+    elif rok == "matching":
+        r = caps[rwk.split(":")[1] + "-ro"]
+    elif rok.startswith("known-ro:"):
+        r = caps[rok.split(":")[1]]
+    else:
+        r = {"unknown": b"", "ro.unknown": RO, "imm.unknown": IMM}[rok] + caps["future2"]
+    return w, r, [rwk, rok]
+
+
+def strip1(x):
+    if x is None:
+        return None
+    return x[4:] if x.startswith(IMM) else x[3:] if x.startswith(RO) else x
+
+
+def expected_caps(kinds, wc, rc):
+    """what a child given as (writecap, readcap) must come back as from a mutable directory read through its write cap:
+    (get_write_uri(), get_readonly_uri() without its alleged-prefix), or None where the design rejects the pair or
+    the pair is inconsistent.  From the statement + unknown.py: an unknown write cap is kept next to any read cap."""
+    rwk, rok = kinds
+    if rwk == "none":
+        return None if rok == "none" else (None, strip1(rc))
+    if rwk.startswith("known-write"):
+        return (wc, strip1(rc)) if rok in ("none", "matching") else None
+    if rok in ("none", "imm.unknown"):
+        return None          # MustNotBeUnknownRWError / MustBeDeepImmutableError by design
+    return (wc, strip1(rc))
 
 
 def class_of(t):
@@ -293,6 +345,7 @@ class World:
         self.key2 = self.dn2._node.get_writekey()
         assert self.key2 != self.key
         self.n_cross = 0
+        self.n_api = 0
         assert self.dn.is_mutable() and not self.dn.is_readonly()
         assert self.dnro.is_mutable() and self.dnro.is_readonly()
         assert not self.imm.is_mutable() and self.imm.is_readonly()
@@ -323,10 +376,15 @@ def one_case(ctx, w, case, lines, impls, cases):
     childrenx = {}
     toks = []
     capstrs = set()
-    for (namex, wc, rc, ctxi, md) in case["children"]:
+    grid = {}                 # NFC name -> (writecap, readcap, kinds, metadata, expected caps) of the spelling that wins
+    for ch in case["children"]:
+        namex, wc, rc, ctxi, md = ch[:5]
         wc, rc = unhex(wc), unhex(rc)
         n = w.c.create_node_from_uri(wc, rc, deep_immutable=bool(ctxi))
         childrenx[namex] = (n, md)
+        grid.pop(nfc(namex), None)
+        if len(ch) > 5 and not ctxi and expected_caps(ch[5], wc, rc) is not None:
+            grid[nfc(namex)] = (wc, rc, ch[5], md, expected_caps(ch[5], wc, rc))
         capstrs |= {wc, rc, n.get_write_uri(), n.get_readonly_uri()}
         if json.loads(dumps(md)) != md:
             ctx.disagree("json round trip of generated metadata fails", {"md": repr(md)}, None, None)
@@ -362,6 +420,10 @@ def one_case(ctx, w, case, lines, impls, cases):
     impls.append("ok:" + hx(to_model_cipher(w.dn, packed_m)) if st == "ok" else "err:cap")
     cases.append({"pack": "m", "case": case})
     ctx.case(("pack-m", st, len(childrenx)) if nkey else None)
+    # ---- a directory written from the cap *strings* (as any other client would have stored them), read through
+    #      the real _unpack_contents / NodeMaker.create_from_cap, and re-serialized (second generation)
+    if grid:
+        generations(ctx, w, case, grid, lines, impls, cases, capstrs)
     # ---- pack for an immutable directory
     st_i, packed_i = call(lambda: pack_children(dict(childrenx), None, True))
     lines.append("pack i %s %s %s" % (ct, nt, ch_tok))
@@ -442,7 +504,11 @@ def one_case(ctx, w, case, lines, impls, cases):
                                   {"name": k, "before": show_node(n), "after": show_node(n2)})
                     continue
                 n3 = res_ro[k][0] if isinstance(res_ro, dict) and k in res_ro else None
-                if n3 is None or n3.get_write_uri() is not None or n3.get_readonly_uri() != n.get_readonly_uri():
+                # (an unknown node with a write cap next to a known read cap shows, through the read-only handle, as the
+                #  known read-only node of that read cap: the same cap without the alleged-`ro.` prefix)
+                same_ro = (n3 is not None and (n3.get_readonly_uri() == n.get_readonly_uri() or
+                                               (n.is_unknown() and strip1(n3.get_readonly_uri()) == strip1(n.get_readonly_uri()))))
+                if n3 is None or n3.get_write_uri() is not None or not same_ro:
                     ctx.violation("through the read-only handle the child is not its read cap", case,
                                   "roundtrip-double-prefix" if k in odd else "roundtrip-ro-view")
             # repack (AuxValueDict path and plain-dict path) gives the same bytes
@@ -583,6 +649,99 @@ def one_case(ctx, w, case, lines, impls, cases):
             unpack_and_compare("rwcapdata-in-immutable", "i", w.imm, bad, bad)
 
 
+def caps_match(node, exp):
+    rw, ro = exp
+    return node.get_write_uri() == rw and (ro is None or strip1(node.get_readonly_uri()) == ro)
+
+
+def generations(ctx, w, case, grid, lines, impls, cases, capstrs):
+    from allmydata.dirnode import _encrypt_rw_uri, pack_children
+    sig = lambda kinds, gen: "child-cap-changed:%s+%s:%s-generation" % (kinds[0].split(":")[0] + (":" + kinds[0].split(":")[1] if ":" in kinds[0] else ""),
+                                                                        kinds[1], gen)
+    names = sorted(grid)
+    stored_ro = {k: (grid[k][1] or b"") for k in names}
+    for k in names:
+        if stored_ro[k].startswith(RO):
+            stored_ro[k] = stored_ro[k][3:]                 # strip_prefix_for_ro in a mutable directory
+    data = frame([(k.encode("utf-8"), stored_ro[k], _encrypt_rw_uri(w.key, grid[k][0] or b""), dumps(grid[k][3]))
+                  for k in names])
+    # correspondence with the model on these bytes
+    dm = to_model_cipher(w.dn, data)
+    strs = set(capstrs)
+    for k in names:
+        strs |= {grid[k][0], grid[k][1], stored_ro[k]}
+    lines.append("unpack mw %s %s %s" % (class_table(strs), "-", hx(dm)))
+    st1, res1 = call(lambda: w.dn._unpack_contents(data))
+    impls.append("ok:" + show_unpacked(res1) if st1 == "ok" else "err")
+    cases.append({"unpack": "mw", "what": "directory-written-from-cap-strings", "case": case})
+    if st1 != "ok":
+        ctx.violation("a directory holding valid (rw_uri, ro_uri) pairs cannot be unpacked", case, "child-cap-changed:unpack-fails")
+        return
+    for k in names:
+        wc, rc, kinds, md, exp = grid[k]
+        ctx.count("grid:%s+%s" % (kinds[0], kinds[1]))
+        ctx.case(("grid", kinds[0], kinds[1]))
+        if k not in res1:
+            ctx.violation("a child given as %s + %s disappears when the directory is read" % tuple(kinds), case,
+                          sig(kinds, "first"), {"name": k})
+        elif not caps_match(res1[k][0], exp) or res1[k][1] != md:
+            ctx.violation("a child given as %s + %s comes back with other capabilities" % tuple(kinds), case,
+                          sig(kinds, "first"), {"name": k, "got": show_node(res1[k][0]),
+                                                "want_rw": None if exp[0] is None else exp[0].hex()})
+    # second generation: every child is set again (what set_metadata_for / an overwriting add / move_child_to do to
+    # one child: `children[name] = (child, metadata)` drops its cached entry), the directory is packed, and the
+    # stored fields are read back
+    for label, repack in (("aux", lambda: (lambda d: ([d.__setitem__(k, d[k]) for k in list(d)], w.dn._pack_contents(d))[1])(w.dn._unpack_contents(data))),
+                          ("plain", lambda: pack_children({k: v for k, v in res1.items()}, w.key, False))):
+        st2, data2 = call(repack)
+        if st2 != "ok":
+            ctx.violation("re-serializing an unpacked directory fails", case, "child-cap-changed:repack-fails:" + label)
+            continue
+        fields = {e[0].decode("utf-8"): e for e in parse_packed(data2)}
+        st3, res3 = call(lambda: w.dn._unpack_contents(data2))
+        for k in names:
+            wc, rc, kinds, md, exp = grid[k]
+            if k not in res1:
+                continue
+            if k not in fields:
+                ctx.violation("a child is missing from the re-serialized directory", case, sig(kinds, "second"))
+                continue
+            rw_stored = w.dn._decrypt_rwcapdata(fields[k][2]) if fields[k][2] else b""
+            if rw_stored.rstrip(b" ") != (exp[0] or b"") or (exp[1] is not None and strip1(fields[k][1]) != exp[1]):
+                ctx.violation("after re-serializing, the stored rwcap / ro_uri field of a child given as %s + %s is not "
+                              "what was stored before" % tuple(kinds), case, sig(kinds, "second"),
+                              {"name": k, "stored_rw": rw_stored.hex(), "stored_ro": fields[k][1].hex(), "how": label})
+            elif st3 != "ok" or k not in res3 or not caps_match(res3[k][0], exp):
+                ctx.violation("after re-serializing and reading again a child has other capabilities", case,
+                              sig(kinds, "second"), {"name": k, "how": label})
+    # now and then the same through the public API on a real directory
+    if w.n_api < ctx.budget(8, 80) and ctx.rng.random() < 0.25:
+        w.n_api += 1
+        k = ctx.rng.choice(names)
+        wc, rc, kinds, md, exp = grid[k]
+        name = "c19-%d" % w.n_api
+
+        def api():
+            # ('no-write' metadata makes the edit layer attenuate the child on purpose — C20's subject)
+            w.rt.wait(w.dn2.set_uri(name, wc, rc, metadata={a: b for a, b in md.items() if a != "no-write"}))
+            n1 = w.rt.wait(w.dn2.get(name))
+            w.rt.wait(w.dn2.set_metadata_for(name, {"touched": True}))
+            raw = w.rt.wait(w.dn2._node.download_best_version())
+            f = {e[0].decode("utf-8"): e for e in parse_packed(raw)}[name]
+            return n1, w.dn2._decrypt_rwcapdata(f[2]) if f[2] else b"", w.rt.wait(w.dn2.get(name))
+        sta, r = call(api)
+        if sta != "ok":
+            ctx.violation("set_uri / set_metadata_for of a valid child fails", case, sig(kinds, "first") + ":api", {"error": repr(r)})
+        else:
+            n1, rw_stored, n2 = r
+            if not caps_match(n1, exp):
+                ctx.violation("set_uri + get: other capabilities", case, sig(kinds, "first"), {"got": show_node(n1)})
+            if rw_stored.rstrip(b" ") != (exp[0] or b"") or not caps_match(n2, exp):
+                ctx.violation("set_metadata_for rewrote a child's write cap", case, sig(kinds, "second"),
+                              {"stored_rw": rw_stored.hex(), "got": show_node(n2)})
+        ctx.count("grid-api")
+
+
 def gen_case(rng, nmax):
     caps = cap_strings(rng)
     n = rng.choice([0, 1, 2, 3, 5, 8, 13, nmax])
@@ -596,13 +755,17 @@ def gen_case(rng, nmax):
             name = gen_name(rng)
         names.append(name)
         w, r = gen_cap_pair(rng, caps)
+        kinds = None
         mode = rng.random()
+        if mode > 0.5:
+            w, r, kinds = gen_grid_pair(rng, caps)
         if mode < 0.25:
             # a child that fits into an immutable directory
             k = rng.choice(["chk", "lit", "dir-chk", "dir-lit", "future"])
             w, r = (None, caps[k]) if k != "future" else rng.choice([(None, caps[k]), (None, IMM + caps[k]), (None, RO + caps[k])])
-        ctxi = 1 if rng.random() < 0.15 else 0
-        children.append([name, None if w is None else w.hex(), None if r is None else r.hex(), ctxi, gen_meta(rng)])
+        ctxi = 1 if (rng.random() < 0.15 and kinds is None) else 0
+        children.append([name, None if w is None else w.hex(), None if r is None else r.hex(), ctxi, gen_meta(rng)]
+                        + ([kinds] if kinds else []))
     return {"children": children}
 
 
@@ -614,12 +777,18 @@ def gen_immutable_case(rng, nmax):
         cap = caps[k]
         w, r = (None, cap) if not k.startswith("future") else rng.choice([(None, cap), (None, IMM + cap), (None, RO + cap), (IMM + cap, None)])
         ch[1], ch[2] = (None if w is None else w.hex()), (None if r is None else r.hex())
+        del ch[5:]
         ch[3] = rng.choice([0, 0, 1])
     return c
 
 
 CORPUS = [
     {"children": []},
+    # the open finding `roundtrip-double-prefix`: an unknown cap with two alleged-prefixes
+    {"children": [["x", None, (b"ro.ro.URI:MDMF:sackjepwslelfdhcjjccaglbia:m7zimvc4h3shncye5ececu3ygwztma7lnuirgm4z6x55x7dx6jfa").hex(), 0, {}]]},
+    # a future-format write cap next to a read cap of a known format
+    {"children": [["fut", b"lafs://future_w".hex(), b"URI:SSK-RO:kvf5cqsq5tyhojt7j63yvmshgu:rbnuw7wbbmf2k4kgapbbxgb6j6dyvnj4qxclwf7twwgzu6ewsg5q".hex(),
+                   0, {"k": 1}, ["unknown", "known-ro:ssk-ro"]]]},
     {"children": [["a", None, b"URI:LIT:".hex(), 0, {}], ["é", None, b"URI:LIT:ae".hex(), 0, {"k": 1}],
                   ["é", None, b"URI:LIT:af".hex(), 0, {"k": 2}],
                   ["u", b"lafs://w".hex(), b"lafs://r".hex(), 0, {}], ["v", None, b"ro.lafs://r".hex(), 0, {}],
